@@ -139,7 +139,10 @@ def run(ctx):
     for a in aps:
         ty = K.awaited_future_type(rs, a) or ""
         if "tokio::time::timeout::Timeout" not in ty:
-            probs.append("Arp::resolve awaits %s at %s without a timeout: resolving an unclaimed address can hang" % (ty[:80], a["loc"]))
+            # a select! whose arms include a timer (Interval::tick / sleep) is bounded as well
+            timers = [1 for bb_, t_ in K.calls(rs) if (F.callee_key(t_) or "").startswith("tokio::time::") and (F.callee_key(t_) or "").rsplit("::", 1)[-1] in ("tick", "sleep", "sleep_until", "timeout")]
+            if not ("PollFn" in ty and timers):
+                probs.append("Arp::resolve awaits %s at %s without a timeout: resolving an unclaimed address can hang" % (ty[:80], a["loc"]))
     tos = K.calls_to(rs, "tokio::time::timeout::timeout")
     for bb, t in tos:
         do = dep.arg_origins(rs, bb, 0, through_calls=False)
@@ -173,6 +176,11 @@ def run(ctx):
             errs = [bb for bb, st in K.aggregates(rs, "core::result::Result", "Err")]
             if len(fm) != 1 or not rg.dominates(none_arm, fm[0][0]):
                 probs.append("exhausting the retries does not record the failure (fail_mac)")
+            else:
+                # every request gets its chance: between sending a request and giving up there is a wait for the reply
+                polls = [a_["poll_bb"] for a_ in aps]
+                if not rg.all_paths_through(sbb, [fm[0][0]], polls):
+                    probs.append("after the last request of the retry budget is sent, resolve gives up (fail_mac) without waiting for its reply: a resolution whose only surviving exchange is the last one fails")
             if not rg.all_paths_through(none_arm, rg.returns, errs):
                 probs.append("exhausting the retries does not return Err")
             # other cycles (besides await polling and the retry loop) must not exist
